@@ -42,6 +42,9 @@ def json_keys(forbid_jsonclass=True):
                      st.sampled_from(["a", "b", "id", "method", "params", "result", "error"]))
     if forbid_jsonclass:
         keys = keys.filter(lambda k: k != "__jsonclass__")
+    else:
+        # with class translation off the member is ordinary data
+        keys = st.one_of(keys, keys, keys, st.just("__jsonclass__"))
     return keys
 
 
